@@ -263,6 +263,11 @@ func (f *Font) Widths() []float64 {
 		}
 		return widths
 	case *glyf.Outlines:
+		if outlines.Widths == nil {
+			// A font without "hmtx" table has no advance widths;
+			// like GlyphWidth, report these as zero.
+			return widths
+		}
 		for i := range widths {
 			widths[i] = float64(outlines.Widths[i])
 		}
